@@ -48,6 +48,30 @@ def layout_text(rng, shape, kind):
         steps = dense_steps(rng, tb, pad=0.1)
         off = rng.choice([0, 0, 0, 8, 64])
         return ", " + tsl_text(tb, steps, off)
+    if kind == "tsl_good":
+        # layouts of the shape the accelerators stream from: 8x8 (or 4-element) inner tiles that are contiguous, outer tiles in any
+        # order with optional padding and an optional offset
+        if len(shape) == 2 and all(n % 8 == 0 for n in shape):
+            tb = [[shape[0] // 8, 8], [shape[1] // 8, 8]]
+            inner = rng.choice([(8, 1), (1, 8)])
+            outer = [0, 1]
+            rng.shuffle(outer)
+            steps = [[0, inner[0]], [0, inner[1]]]
+            cur = 64
+            for d in outer:
+                steps[d][0] = cur
+                cur *= tb[d][0]
+                if rng.random() < 0.25:
+                    cur += 64 * rng.randint(1, 3)
+            off = rng.choice([0, 0, 0, 64, 128])
+            return ", " + tsl_text(tb, steps, off)
+        if len(shape) == 1 and shape[0] % 4 == 0:
+            t = rng.choice([4, 4, shape[0]])
+            tb = [[shape[0] // t, t]]
+            steps = [[t + rng.choice([0, 0, 4]), 1]]
+            off = rng.choice([0, 0, 0, 4, 16])
+            return ", " + tsl_text(tb, steps, off)
+        return ""
     raise ValueError(kind)
 
 
